@@ -774,6 +774,24 @@ func (x *Exec) constVal(c *ssa.Const) V {
 	return V{T: t, S: x.s.zero(t)}
 }
 
+// evalLoopClause evaluates a loop invariant. An untagged invariant is proof structure only:
+// when it can no longer be evaluated against the code (it names a variable the loop no
+// longer has) it is dropped with a note - the obligations it supported then fail or pass on
+// their own - instead of aborting the function. A tagged (property) clause still aborts.
+func (x *Exec) evalLoopClause(fr *Frame, inv *Clause, st *State, point *ssa.BasicBlock) (f string, ok bool) {
+	defer func() {
+		if r := recover(); r != nil {
+			ce, isCE := r.(contractError)
+			if !isCE || inv.Tag != "" || !strings.Contains(string(ce), "unknown identifier") {
+				panic(r)
+			}
+			x.note("loop invariant of %s dropped: it cannot be evaluated against the current code (%s): %s", funcKey(fr.fn), string(ce), inv.Src)
+			f, ok = "true", false
+		}
+	}()
+	return x.evalClause(fr, inv, st, point, nil), true
+}
+
 // loopHead cuts the loop: asserts invariants on entry, havocs, assumes.
 func (x *Exec) loopHead(fr *Frame, li *loopInfo, entry *State, phiEntry map[*ssa.Phi]V) *State {
 	var lc *LoopContract
@@ -787,7 +805,10 @@ func (x *Exec) loopHead(fr *Frame, li *loopInfo, entry *State, phiEntry map[*ssa
 			for phi, v := range phiEntry {
 				fr.vals[phi] = v
 			}
-			f := x.evalClause(fr, inv, entry, li.head, nil)
+			f, okc := x.evalLoopClause(fr, inv, entry, li.head)
+			if !okc {
+				continue
+			}
 			x.addObl(&Obligation{Name: fmt.Sprintf("%s#loop%d.inv%d.entry", fname, li.ordinal, i+1), Kind: "inv-entry", Tag: inv.Tag,
 				Func: fname, Pos: x.prog.pos(li.minPos), Guard: entry.guard, Formula: f, Src: inv.Src})
 		}
@@ -940,7 +961,10 @@ func (x *Exec) loopHead(fr *Frame, li *loopInfo, entry *State, phiEntry map[*ssa
 	// 3. assume invariants
 	if lc != nil {
 		for _, inv := range lc.Invariants {
-			f := x.evalClause(fr, inv, head, li.head, nil)
+			f, okc := x.evalLoopClause(fr, inv, head, li.head)
+			if !okc {
+				continue
+			}
 			x.assume(head.guard, f)
 		}
 		if lc.Decreases != nil {
@@ -1020,7 +1044,10 @@ func (x *Exec) loopLatch(fr *Frame, li *loopInfo, latch *ssa.BasicBlock, st *Sta
 		}
 	}
 	for i, inv := range lc.Invariants {
-		f := x.evalClause(fr, inv, st, li.head, nil)
+		f, okc := x.evalLoopClause(fr, inv, st, li.head)
+		if !okc {
+			continue
+		}
 		x.addObl(&Obligation{Name: fmt.Sprintf("%s#loop%d.inv%d.step", fname, li.ordinal, i+1), Kind: "inv-step", Tag: inv.Tag,
 			Func: fname, Pos: x.prog.pos(li.minPos), Guard: cond, Formula: f, Src: inv.Src})
 	}
